@@ -79,12 +79,15 @@ func canonVec(res []comet.VectorResult, err error) string {
 }
 
 // buildSerState generates a state of the given kind. The battery of queries is fixed at build time.
-func buildSerState(rng *rand.Rand, kind string, allowEmpty bool) (*serState, error) {
+func buildSerState(rng *rand.Rand, kind string, allowEmpty bool, forceShape ...int) (*serState, error) {
 	metric := allMetrics[rng.IntN(3)]
 	st := &serState{kind: kind, countsBytes: true}
 	shape := rng.IntN(6) // 0 empty, 1 untrained (trained kinds), 2 all-removed, else populated
 	if !allowEmpty && shape < 3 {
 		shape = 3
+	}
+	if len(forceShape) > 0 {
+		shape = forceShape[0]
 	}
 	switch kind {
 	case "flat", "hnsw", "ivf", "pq", "ivfpq":
